@@ -132,6 +132,11 @@ def differential_obligations(prop, tier, seed):
     secs = int(os.environ.get("VERIF_DIFF_SECONDS", DIFF_SECONDS[tier]))
     with cf.ThreadPoolExecutor(max_workers=len(suites)) as ex:
         futs = {su: ex.submit(replay_search.run_suite, su, secs, seed) for su in suites}
+        if prop == "C09":
+            # C09 quantifies over the `prefetch` cargo feature on and off: the same suites on a build without it
+            for su in list(suites):
+                futs[su + "@no-prefetch-feature"] = ex.submit(replay_search.run_suite, su, secs, seed, True)
+            suites = suites + [su + "@no-prefetch-feature" for su in suites]
         for su in suites:
             try:
                 r = futs[su].result()
@@ -139,7 +144,7 @@ def differential_obligations(prop, tier, seed):
                 r = {"suite": su, "built": False, "found": False, "note": "differential run unavailable: %s" % e}
             o = {"id": "bounded:differential:%s" % su, "engine": "differential replay of the real crate", "kind": "bounded",
                  "bound": "%d s of small / random inputs against a naive oracle, seed %d (public API incl. the functions outside the verified set)" % (secs, seed),
-                 "ok": not r.get("found"), "function": "suite %s" % su, "file": SUITE_FILE.get(su, "src/"), "skipped": not r.get("built", True),
+                 "ok": not r.get("found"), "function": "suite %s" % su, "file": SUITE_FILE.get(su.split("@")[0], "src/"), "skipped": not r.get("built", True),
                  "iterations": r.get("iterations"), "seconds": secs}
             if r.get("found"):
                 o["failures"] = [{"msg": "%s: %s observed %s, expected %s" % (r.get("structure"), r.get("call"), r.get("observed"), r.get("expected")),
